@@ -534,6 +534,365 @@ FIFTH = [
       edits=[(V, OCI_CALL, WHOLE_CALL), (V, VA_ANCHOR, WHOLE_FN.replace('statement.TrustStores', 'v.ociTrustPolicyDoc.TrustPolicies[0].TrustStores').lstrip('\n') + '\n' + VA_ANCHOR)]),
 ]
 
+
+# ---------------------------------------------------------------------------------------------------------------------------
+# third pass. Classes: (A) result object created up front (literal or constructor of successful results) and filled in;
+# (B) the loader's error handed on next to the certificates, the callee decides (parameter widened); (C) the envelope content
+# handed on / held in a local instead of the whole outcome (parameter narrowed).
+CTOR0 = """
+func newValidationResult(outcome *notation.VerificationOutcome, validationType trustpolicy.ValidationType) *notation.ValidationResult {
+	return &notation.ValidationResult{
+		Type:   validationType,
+		Action: outcome.VerificationLevel.Enforcement[validationType],
+	}
+}
+"""
+# delegating constructor of successful results, other parameter order, field by field
+CTOR0_DELEG = """
+func freshResult(validationType trustpolicy.ValidationType, outcome *notation.VerificationOutcome) *notation.ValidationResult {
+	r := new(notation.ValidationResult)
+	r.Action = outcome.VerificationLevel.Enforcement[validationType]
+	r.Type = validationType
+	return r
+}
+
+func newAuthenticityResult(outcome *notation.VerificationOutcome) *notation.ValidationResult {
+	return freshResult(trustpolicy.TypeAuthenticity, outcome)
+}
+"""
+# the shape of benign3/out-C01/2
+VA_UPFRONT = """func verifyAuthenticity(trustCerts []*x509.Certificate, outcome *notation.VerificationOutcome) *notation.ValidationResult {
+	result := newValidationResult(outcome, trustpolicy.TypeAuthenticity)
+
+	if len(trustCerts) < 1 {
+		result.Error = notation.ErrorVerificationInconclusive{Msg: "no trusted certificates are found to verify authenticity"}
+		return result
+	}
+	_, err := signature.VerifyAuthenticity(&outcome.EnvelopeContent.SignerInfo, trustCerts)
+	if err != nil {
+		switch err.(type) {
+		case *signature.SignatureAuthenticityError:
+			result.Error = err
+		default:
+			result.Error = notation.ErrorVerificationInconclusive{Msg: "authenticity verification failed with error : " + err.Error()}
+		}
+	}
+
+	return result
+}
+"""
+LOAD_UPFRONT = """	trustCerts, err := loadX509TrustStores(ctx, outcome.EnvelopeContent.SignerInfo.SignedAttributes.SigningScheme, policyName, trustStores, v.trustStore)
+	var authenticityResult *notation.ValidationResult
+	if err != nil {
+		authenticityResult = newValidationResult(outcome, trustpolicy.TypeAuthenticity)
+		authenticityResult.Error = err
+	} else {
+		// verify authenticity
+		authenticityResult = verifyAuthenticity(trustCerts, outcome)
+	}
+"""
+# up-front literal in the caller, filled in on the failing branch
+LOAD_UPFRONT_LIT = """	trustCerts, err := loadX509TrustStores(ctx, outcome.EnvelopeContent.SignerInfo.SignedAttributes.SigningScheme, policyName, trustStores, v.trustStore)
+	authenticityResult := &notation.ValidationResult{
+		Type:   trustpolicy.TypeAuthenticity,
+		Action: outcome.VerificationLevel.Enforcement[trustpolicy.TypeAuthenticity],
+	}
+	if err != nil {
+		authenticityResult.Error = err
+	} else {
+		authenticityResult = verifyAuthenticity(trustCerts, outcome)
+	}
+"""
+# up-front result by the delegating constructor, nesting instead of guard clause, one exit
+VA_UPFRONT_NESTED = """func verifyAuthenticity(trustCerts []*x509.Certificate, outcome *notation.VerificationOutcome) *notation.ValidationResult {
+	result := newAuthenticityResult(outcome)
+	if len(trustCerts) >= 1 {
+		if _, err := signature.VerifyAuthenticity(&outcome.EnvelopeContent.SignerInfo, trustCerts); err != nil {
+			if _, ok := err.(*signature.SignatureAuthenticityError); ok {
+				result.Error = err
+			} else {
+				result.Error = notation.ErrorVerificationInconclusive{Msg: "authenticity verification failed with error : " + err.Error()}
+			}
+		}
+	} else {
+		result.Error = notation.ErrorVerificationInconclusive{Msg: "no trusted certificates are found to verify authenticity"}
+	}
+	return result
+}
+"""
+LOAD_UPFRONT_DELEG = LOAD_UPFRONT.replace('newValidationResult(outcome, trustpolicy.TypeAuthenticity)', 'newAuthenticityResult(outcome)')
+
+# (B) the shape of benign3/out-C02/2
+LOAD_HANDED = """	trustCerts, err := loadX509TrustStores(ctx, outcome.EnvelopeContent.SignerInfo.SignedAttributes.SigningScheme, policyName, trustStores, v.trustStore)
+	// verify authenticity (a trust store that failed to load fails it)
+	authenticityResult := verifyAuthenticity(trustCerts, err, outcome)
+"""
+VA_HANDED = """func verifyAuthenticity(trustCerts []*x509.Certificate, trustStoreErr error, outcome *notation.VerificationOutcome) *notation.ValidationResult {
+	err := trustStoreErr
+	if err == nil {
+		err = checkAuthenticity(trustCerts, outcome.EnvelopeContent)
+	}
+	return &notation.ValidationResult{
+		Error:  err,
+		Type:   trustpolicy.TypeAuthenticity,
+		Action: outcome.VerificationLevel.Enforcement[trustpolicy.TypeAuthenticity],
+	}
+}
+
+func checkAuthenticity(trustCerts []*x509.Certificate, envContent *signature.EnvelopeContent) error {
+	if len(trustCerts) < 1 {
+		return notation.ErrorVerificationInconclusive{Msg: "no trusted certificates are found to verify authenticity"}
+	}
+	_, err := signature.VerifyAuthenticity(&envContent.SignerInfo, trustCerts)
+	if err == nil {
+		return nil
+	}
+	if _, ok := err.(*signature.SignatureAuthenticityError); ok {
+		return err
+	}
+	return notation.ErrorVerificationInconclusive{Msg: "authenticity verification failed with error : " + err.Error()}
+}
+"""
+# guard clause on the handed error, other parameter order, results by constructor
+LOAD_HANDED2 = LOAD_HANDED.replace('verifyAuthenticity(trustCerts, err, outcome)', 'verifyAuthenticity(outcome, err, trustCerts)')
+VA_HANDED_GUARD = """func verifyAuthenticity(outcome *notation.VerificationOutcome, loadErr error, trustCerts []*x509.Certificate) *notation.ValidationResult {
+	if loadErr != nil {
+		return newValidationResult(outcome, trustpolicy.TypeAuthenticity, loadErr)
+	}
+	if len(trustCerts) < 1 {
+		return newValidationResult(outcome, trustpolicy.TypeAuthenticity, notation.ErrorVerificationInconclusive{Msg: "no trusted certificates are found to verify authenticity"})
+	}
+	_, err := signature.VerifyAuthenticity(&outcome.EnvelopeContent.SignerInfo, trustCerts)
+	if err != nil {
+		if _, ok := err.(*signature.SignatureAuthenticityError); !ok {
+			err = notation.ErrorVerificationInconclusive{Msg: "authenticity verification failed with error : " + err.Error()}
+		}
+		return newValidationResult(outcome, trustpolicy.TypeAuthenticity, err)
+	}
+	return newValidationResult(outcome, trustpolicy.TypeAuthenticity, nil)
+}
+"""
+# the callee returns an error, the caller builds the one literal
+LOAD_HANDED_ERR = """	trustCerts, err := loadX509TrustStores(ctx, outcome.EnvelopeContent.SignerInfo.SignedAttributes.SigningScheme, policyName, trustStores, v.trustStore)
+	authenticityResult := &notation.ValidationResult{
+		Error:  authenticityError(trustCerts, err, &outcome.EnvelopeContent.SignerInfo),
+		Type:   trustpolicy.TypeAuthenticity,
+		Action: outcome.VerificationLevel.Enforcement[trustpolicy.TypeAuthenticity],
+	}
+"""
+AUTH_ERR_FN = """func authenticityError(trustCerts []*x509.Certificate, loadErr error, signerInfo *signature.SignerInfo) error {
+	if loadErr != nil {
+		return loadErr
+	}
+	if len(trustCerts) < 1 {
+		return notation.ErrorVerificationInconclusive{Msg: "no trusted certificates are found to verify authenticity"}
+	}
+	_, err := signature.VerifyAuthenticity(signerInfo, trustCerts)
+	switch err.(type) {
+	case nil, *signature.SignatureAuthenticityError:
+		return err
+	}
+	return notation.ErrorVerificationInconclusive{Msg: "authenticity verification failed with error : " + err.Error()}
+}
+
+"""
+# a layer between processSignature and the unchanged verifyAuthenticity takes the error and decides
+LOAD_HANDED_MID = """	trustCerts, err := loadX509TrustStores(ctx, outcome.EnvelopeContent.SignerInfo.SignedAttributes.SigningScheme, policyName, trustStores, v.trustStore)
+	authenticityResult := authenticityResultFor(outcome, trustCerts, err)
+"""
+MID_FN = """func authenticityResultFor(outcome *notation.VerificationOutcome, roots []*x509.Certificate, loadErr error) *notation.ValidationResult {
+	switch {
+	case loadErr != nil:
+		return &notation.ValidationResult{
+			Error:  loadErr,
+			Type:   trustpolicy.TypeAuthenticity,
+			Action: outcome.VerificationLevel.Enforcement[trustpolicy.TypeAuthenticity],
+		}
+	default:
+		return verifyAuthenticity(roots, outcome)
+	}
+}
+
+"""
+# (C) the envelope content held in a local of processSignature and handed on
+INTEGRITY_LINES = "\tenvContent, integrityResult := verifyIntegrity(sigBlob, envelopeMediaType, outcome)\n\toutcome.EnvelopeContent = envContent\n"
+LOAD_ENV_LOCAL = LOAD_BLOCK.replace('verifyAuthenticity(trustCerts, outcome)', 'verifyAuthenticity(trustCerts, envContent, outcome)')
+VA_ENV_PARAM = VA_FN.replace('func verifyAuthenticity(trustCerts []*x509.Certificate, outcome *notation.VerificationOutcome)', 'func verifyAuthenticity(trustCerts []*x509.Certificate, content *signature.EnvelopeContent, outcome *notation.VerificationOutcome)').replace('&outcome.EnvelopeContent.SignerInfo', '&content.SignerInfo')
+
+# one up-front object in the caller serves both arms; the check returns an error
+LOAD_UPFRONT_BOTH = """	trustCerts, err := loadX509TrustStores(ctx, outcome.EnvelopeContent.SignerInfo.SignedAttributes.SigningScheme, policyName, trustStores, v.trustStore)
+	authenticityResult := newValidationResult(outcome, trustpolicy.TypeAuthenticity)
+	if err != nil {
+		authenticityResult.Error = err
+	} else if authErr := authenticityError(trustCerts, outcome.EnvelopeContent); authErr != nil {
+		authenticityResult.Error = authErr
+	}
+"""
+AUTH_ERR2_FN = """func authenticityError(trustCerts []*x509.Certificate, content *signature.EnvelopeContent) error {
+	if len(trustCerts) < 1 {
+		return notation.ErrorVerificationInconclusive{Msg: "no trusted certificates are found to verify authenticity"}
+	}
+	_, err := signature.VerifyAuthenticity(&content.SignerInfo, trustCerts)
+	switch err.(type) {
+	case nil, *signature.SignatureAuthenticityError:
+		return err
+	}
+	return notation.ErrorVerificationInconclusive{Msg: "authenticity verification failed with error : " + err.Error()}
+}
+
+"""
+# error local in the caller, one literal
+LOAD_ERR_LOCAL = """	trustCerts, err := loadX509TrustStores(ctx, outcome.EnvelopeContent.SignerInfo.SignedAttributes.SigningScheme, policyName, trustStores, v.trustStore)
+	var authErr error
+	if err != nil {
+		authErr = err
+	} else {
+		authErr = authenticityError(trustCerts, outcome.EnvelopeContent)
+	}
+	authenticityResult := &notation.ValidationResult{
+		Error:  authErr,
+		Type:   trustpolicy.TypeAuthenticity,
+		Action: outcome.VerificationLevel.Enforcement[trustpolicy.TypeAuthenticity],
+	}
+"""
+# the decision in a closure of processSignature that captures the certificates and the error
+LOAD_HANDED_CLOSURE = """	trustCerts, err := loadX509TrustStores(ctx, outcome.EnvelopeContent.SignerInfo.SignedAttributes.SigningScheme, policyName, trustStores, v.trustStore)
+	authenticity := func(roots []*x509.Certificate, loadErr error) *notation.ValidationResult {
+		if loadErr != nil {
+			return &notation.ValidationResult{
+				Error:  loadErr,
+				Type:   trustpolicy.TypeAuthenticity,
+				Action: outcome.VerificationLevel.Enforcement[trustpolicy.TypeAuthenticity],
+			}
+		}
+		return verifyAuthenticity(roots, outcome)
+	}
+	authenticityResult := authenticity(trustCerts, err)
+"""
+# the loader's error logged first, then handed on
+LOAD_HANDED_LOGGED = LOAD_HANDED.replace('\t// verify authenticity (a trust store', '\tif err != nil {\n\t\tlogger.Debugf("trust stores of %q could not be loaded: %v", policyName, err)\n\t}\n\t// verify authenticity (a trust store')
+
+# two layers: a forwarding layer hands certificates and error on to the single-exit verifyAuthenticity of LOAD_HANDED
+LOAD_HANDED_TWO = """	trustCerts, err := loadX509TrustStores(ctx, outcome.EnvelopeContent.SignerInfo.SignedAttributes.SigningScheme, policyName, trustStores, v.trustStore)
+	authenticityResult := authenticityStep(outcome, trustCerts, err)
+"""
+TWO_FN = """func authenticityStep(outcome *notation.VerificationOutcome, roots []*x509.Certificate, loadErr error) *notation.ValidationResult {
+	return verifyAuthenticity(roots, loadErr, outcome)
+}
+
+"""
+# up-front literal inside verifyAuthenticity
+VA_UPFRONT_LIT = VA_UPFRONT.replace('\tresult := newValidationResult(outcome, trustpolicy.TypeAuthenticity)\n', '\tresult := &notation.ValidationResult{\n\t\tType:   trustpolicy.TypeAuthenticity,\n\t\tAction: outcome.VerificationLevel.Enforcement[trustpolicy.TypeAuthenticity],\n\t}\n')
+# SignerInfo handed on by value
+VA_SI_BY_VALUE = """func chainError(signerInfo signature.SignerInfo, roots []*x509.Certificate) error {
+	_, err := signature.VerifyAuthenticity(&signerInfo, roots)
+	return err
+}
+
+""" + VA_FN.replace('\t_, err := signature.VerifyAuthenticity(&outcome.EnvelopeContent.SignerInfo, trustCerts)\n', '\terr := chainError(outcome.EnvelopeContent.SignerInfo, trustCerts)\n')
+
+def upfront(va=VA_UPFRONT, load=LOAD_UPFRONT, ctorsrc=CTOR0):
+    return [(V, VA_FN, va + ctorsrc), (V, LOAD_BLOCK, load)]
+
+def handed(va=VA_HANDED, load=LOAD_HANDED):
+    return [(V, VA_FN, va), (V, LOAD_BLOCK, load)]
+
+SIXTH = [
+ # --- class A: result created up front and filled in ---------------------------------------------------------------------
+ dict(name='benign-upfront-ctor-filled-in', expect='silent', edits=upfront()),
+ dict(name='benign-upfront-literal-in-caller', expect='silent', edits=[(V, LOAD_BLOCK, LOAD_UPFRONT_LIT)]),
+ dict(name='benign-upfront-delegating-ctor-nested', expect='silent', edits=upfront(VA_UPFRONT_NESTED, LOAD_UPFRONT_DELEG, CTOR0_DELEG)),
+ dict(name='benign-upfront-ctor-caller-only', expect='silent', edits=[(V, VA_FN, VA_FN + CTOR0), (V, LOAD_BLOCK, LOAD_UPFRONT)]),
+ dict(name='upfront-ctor-load-error-not-stored', expect='flagged(authenticity/load-error-is-failure)',
+      edits=upfront(load=LOAD_UPFRONT.replace('\t\tauthenticityResult.Error = err\n', '\t\tlogger.Debugf("trust stores: %v", err)\n'))),
+ dict(name='upfront-ctor-load-error-other-type', expect='flagged(authenticity/load-error-is-failure)',
+      edits=upfront(load=LOAD_UPFRONT.replace('newValidationResult(outcome, trustpolicy.TypeAuthenticity)', 'newValidationResult(outcome, trustpolicy.TypeExpiry)'))),
+ dict(name='upfront-ctor-type-overwritten', expect='flagged(authenticity/load-error-is-failure)',
+      edits=upfront(load=LOAD_UPFRONT, ctorsrc=CTOR0.replace('\t\tType:   validationType,\n', '\t\tType:   trustpolicy.TypeExpiry,\n'))),
+ dict(name='upfront-literal-load-error-stored-on-success-only', expect='flagged(authenticity/)',
+      edits=[(V, LOAD_BLOCK, LOAD_UPFRONT_LIT.replace('\tif err != nil {\n\t\tauthenticityResult.Error = err\n\t} else {', '\tif err != nil {\n\t\tlogger.Debugf("trust stores: %v", err)\n\t} else {\n\t\tauthenticityResult.Error = err'))]),
+ dict(name='upfront-result-unexpected-error-not-stored', expect='flagged(authenticity/verify-error-fails)',
+      edits=upfront(VA_UPFRONT.replace('\t\tdefault:\n\t\t\tresult.Error = notation.ErrorVerificationInconclusive{Msg: "authenticity verification failed with error : " + err.Error()}\n', '\t\tdefault:\n'))),
+ dict(name='upfront-result-empty-set-passes', expect='flagged(authenticity/empty-set-fails)',
+      edits=upfront(VA_UPFRONT.replace('if len(trustCerts) < 1 {', 'if trustCerts == nil {'))),
+ dict(name='upfront-nested-empty-set-not-stored', expect='flagged(authenticity/empty-set-fails)',
+      edits=upfront(VA_UPFRONT_NESTED.replace('\t} else {\n\t\tresult.Error = notation.ErrorVerificationInconclusive{Msg: "no trusted certificates are found to verify authenticity"}\n\t}\n', '\t}\n'), LOAD_UPFRONT_DELEG, CTOR0_DELEG)),
+ dict(name='upfront-nested-fresh-result-returned', expect='flagged(authenticity/)',
+      edits=upfront(VA_UPFRONT_NESTED.replace('\treturn result\n}', '\treturn newAuthenticityResult(outcome)\n}'), LOAD_UPFRONT_DELEG, CTOR0_DELEG)),
+ # --- class B: the loader's error handed on with the certificates ----------------------------------------------------------
+ dict(name='benign-load-error-handed-to-verify', expect='silent', edits=handed()),
+ dict(name='benign-load-error-handed-guard-clause-ctor', expect='silent', edits=[(V, VA_FN, VA_HANDED_GUARD + CTOR), (V, LOAD_BLOCK, LOAD_HANDED2)]),
+ dict(name='benign-load-error-handed-error-helper', expect='silent', edits=[(V, VA_FN, AUTH_ERR_FN + VA_FN), (V, LOAD_BLOCK, LOAD_HANDED_ERR)]),
+ dict(name='benign-load-error-handed-middle-layer', expect='silent', edits=[(V, VA_FN, MID_FN + VA_FN), (V, LOAD_BLOCK, LOAD_HANDED_MID)]),
+ dict(name='handed-load-error-ignored', expect='flagged(authenticity/load-error-is-failure)',
+      edits=handed(VA_HANDED.replace('\terr := trustStoreErr\n\tif err == nil {\n\t\terr = checkAuthenticity(trustCerts, outcome.EnvelopeContent)\n\t}\n', '\t_ = trustStoreErr\n\terr := checkAuthenticity(trustCerts, outcome.EnvelopeContent)\n'))),
+ dict(name='handed-load-error-test-inverted', expect='flagged(authenticity/)',
+      edits=handed(VA_HANDED.replace('\tif err == nil {\n\t\terr = checkAuthenticity', '\tif err != nil {\n\t\terr = checkAuthenticity'))),
+ dict(name='handed-nil-instead-of-load-error', expect='flagged(authenticity/)',
+      edits=handed(load=LOAD_HANDED.replace('verifyAuthenticity(trustCerts, err, outcome)', 'verifyAuthenticity(trustCerts, nil, outcome)').replace('\t// verify authenticity (a trust store', '\t_ = err\n\t// verify authenticity (a trust store'))),
+ dict(name='handed-load-error-call-bypassed', expect='flagged(authenticity/load-error-is-failure)',
+      edits=handed(load=LOAD_HANDED.replace('\tauthenticityResult := verifyAuthenticity(trustCerts, err, outcome)\n',
+        '\tauthenticityResult := &notation.ValidationResult{\n\t\tType:   trustpolicy.TypeAuthenticity,\n\t\tAction: outcome.VerificationLevel.Enforcement[trustpolicy.TypeAuthenticity],\n\t}\n\tif err == nil || len(trustCerts) > 0 {\n\t\tauthenticityResult = verifyAuthenticity(trustCerts, err, outcome)\n\t}\n'))),
+ dict(name='handed-load-error-result-reset', expect='flagged(authenticity/)',
+      edits=handed(VA_HANDED.replace('\treturn &notation.ValidationResult{\n\t\tError:  err,\n\t\tType:   trustpolicy.TypeAuthenticity,\n\t\tAction: outcome.VerificationLevel.Enforcement[trustpolicy.TypeAuthenticity],\n\t}\n}\n\nfunc checkAuthenticity',
+        '\tresult := &notation.ValidationResult{\n\t\tError:  err,\n\t\tType:   trustpolicy.TypeAuthenticity,\n\t\tAction: outcome.VerificationLevel.Enforcement[trustpolicy.TypeAuthenticity],\n\t}\n\tif trustStoreErr != nil && result.Action != trustpolicy.ActionEnforce {\n\t\tresult.Error = nil\n\t}\n\treturn result\n}\n\nfunc checkAuthenticity'))),
+ dict(name='handed-check-empty-set-passes', expect='flagged(authenticity/empty-set-fails)',
+      edits=handed(VA_HANDED.replace('if len(trustCerts) < 1 {', 'if trustCerts == nil {'))),
+ dict(name='handed-check-unexpected-error-dropped', expect='flagged(authenticity/verify-error-fails)',
+      edits=handed(VA_HANDED.replace('\treturn notation.ErrorVerificationInconclusive{Msg: "authenticity verification failed with error : " + err.Error()}\n}', '\treturn nil\n}'))),
+ dict(name='handed-guard-clause-other-type', expect='flagged(authenticity/load-error-is-failure)',
+      edits=[(V, VA_FN, VA_HANDED_GUARD.replace('newValidationResult(outcome, trustpolicy.TypeAuthenticity, loadErr)', 'newValidationResult(outcome, trustpolicy.TypeExpiry, loadErr)') + CTOR), (V, LOAD_BLOCK, LOAD_HANDED2)]),
+ dict(name='handed-guard-clause-removed', expect='flagged(authenticity/)',
+      edits=[(V, VA_FN, VA_HANDED_GUARD.replace('\tif loadErr != nil {\n\t\treturn newValidationResult(outcome, trustpolicy.TypeAuthenticity, loadErr)\n\t}\n', '\t_ = loadErr\n') + CTOR), (V, LOAD_BLOCK, LOAD_HANDED2)]),
+ dict(name='handed-error-helper-drops-load-error', expect='flagged(authenticity/)',
+      edits=[(V, VA_FN, AUTH_ERR_FN.replace('\tif loadErr != nil {\n\t\treturn loadErr\n\t}\n', '\t_ = loadErr\n') + VA_FN), (V, LOAD_BLOCK, LOAD_HANDED_ERR)]),
+ dict(name='handed-error-helper-verdict-unused', expect='flagged(authenticity/load-error-is-failure)',
+      edits=[(V, VA_FN, AUTH_ERR_FN + VA_FN), (V, LOAD_BLOCK, LOAD_HANDED_ERR.replace('\tauthenticityResult := &notation.ValidationResult{\n\t\tError:  authenticityError(trustCerts, err, &outcome.EnvelopeContent.SignerInfo),\n', '\t_ = authenticityError(trustCerts, err, &outcome.EnvelopeContent.SignerInfo)\n\tauthenticityResult := &notation.ValidationResult{\n'))]),
+ dict(name='handed-middle-layer-verifies-despite-load-error', expect='flagged(authenticity/)',
+      edits=[(V, VA_FN, MID_FN.replace('case loadErr != nil:', 'case loadErr != nil && len(roots) == 0:') + VA_FN), (V, LOAD_BLOCK, LOAD_HANDED_MID)]),
+ dict(name='handed-middle-layer-load-error-as-other-type', expect='flagged(authenticity/load-error-is-failure)',
+      edits=[(V, VA_FN, MID_FN.replace('\t\t\tType:   trustpolicy.TypeAuthenticity,\n', '\t\t\tType:   trustpolicy.TypeExpiry,\n') + VA_FN), (V, LOAD_BLOCK, LOAD_HANDED_MID)]),
+ dict(name='benign-upfront-ctor-both-arms-error-check', expect='silent', edits=[(V, VA_FN, AUTH_ERR2_FN + VA_FN + CTOR0), (V, LOAD_BLOCK, LOAD_UPFRONT_BOTH)]),
+ dict(name='benign-error-local-in-caller', expect='silent', edits=[(V, VA_FN, AUTH_ERR2_FN + VA_FN), (V, LOAD_BLOCK, LOAD_ERR_LOCAL)]),
+ dict(name='benign-load-error-handed-to-closure', expect='silent', edits=[(V, LOAD_BLOCK, LOAD_HANDED_CLOSURE)]),
+ dict(name='benign-load-error-logged-then-handed', expect='silent', edits=handed(load=LOAD_HANDED_LOGGED)),
+ dict(name='upfront-ctor-both-arms-load-error-not-stored', expect='flagged(authenticity/load-error-is-failure)',
+      edits=[(V, VA_FN, AUTH_ERR2_FN + VA_FN + CTOR0), (V, LOAD_BLOCK, LOAD_UPFRONT_BOTH.replace('\tif err != nil {\n\t\tauthenticityResult.Error = err\n\t} else if', '\tif err != nil {\n\t\tlogger.Debugf("trust stores: %v", err)\n\t} else if'))]),
+ dict(name='error-local-in-caller-load-error-dropped', expect='flagged(authenticity/load-error-is-failure)',
+      edits=[(V, VA_FN, AUTH_ERR2_FN + VA_FN), (V, LOAD_BLOCK, LOAD_ERR_LOCAL.replace('\t\tauthErr = err\n', '\t\tauthErr = nil\n'))]),
+ dict(name='error-local-in-caller-checked-despite-load-error', expect='flagged(authenticity/only-after-successful-load)',
+      edits=[(V, VA_FN, AUTH_ERR2_FN + VA_FN), (V, LOAD_BLOCK, LOAD_ERR_LOCAL.replace('\tif err != nil {\n\t\tauthErr = err\n\t} else {\n\t\tauthErr = authenticityError(trustCerts, outcome.EnvelopeContent)\n\t}\n', '\tauthErr := authenticityError(trustCerts, outcome.EnvelopeContent)\n\tif err != nil {\n\t\tauthErr = err\n\t}\n').replace('\tvar authErr error\n', ''))]),
+ dict(name='handed-to-closure-load-error-dropped', expect='flagged(authenticity/)',
+      edits=[(V, LOAD_BLOCK, LOAD_HANDED_CLOSURE.replace('\t\tif loadErr != nil {\n', '\t\tif loadErr != nil && len(roots) == 0 {\n'))]),
+ dict(name='logged-then-returned-before-handed', expect='flagged(authenticity/load-error-is-failure)',
+      edits=handed(load=LOAD_HANDED_LOGGED.replace('\t\tlogger.Debugf("trust stores of %q could not be loaded: %v", policyName, err)\n', '\t\tlogger.Debugf("trust stores of %q could not be loaded: %v", policyName, err)\n\t\tif len(pluginCapabilities) > 0 {\n\t\t\treturn nil\n\t\t}\n'))),
+ dict(name='handed-to-closure-second-call-with-own-chain', expect='flagged(authenticity/certs-from-loader)',
+      edits=[(V, LOAD_BLOCK, LOAD_HANDED_CLOSURE + '\tif authenticityResult.Error != nil && len(pluginCapabilities) > 0 {\n\t\tauthenticityResult = authenticity(outcome.EnvelopeContent.SignerInfo.CertificateChain, nil)\n\t}\n')]),
+ dict(name='benign-load-error-handed-through-two-layers', expect='silent', edits=[(V, VA_FN, TWO_FN + VA_HANDED), (V, LOAD_BLOCK, LOAD_HANDED_TWO)]),
+ dict(name='benign-upfront-literal-in-verify', expect='silent', edits=[(V, VA_FN, VA_UPFRONT_LIT)]),
+ dict(name='two-layers-nil-handed-on', expect='flagged(authenticity/)',
+      edits=[(V, VA_FN, TWO_FN.replace('verifyAuthenticity(roots, loadErr, outcome)', 'verifyAuthenticity(roots, nil, outcome)') + VA_HANDED), (V, LOAD_BLOCK, LOAD_HANDED_TWO)]),
+ dict(name='two-layers-inner-ignores-load-error', expect='flagged(authenticity/load-error-is-failure)',
+      edits=[(V, VA_FN, TWO_FN + VA_HANDED.replace('\terr := trustStoreErr\n\tif err == nil {\n\t\terr = checkAuthenticity(trustCerts, outcome.EnvelopeContent)\n\t}\n', '\t_ = trustStoreErr\n\terr := checkAuthenticity(trustCerts, outcome.EnvelopeContent)\n')), (V, LOAD_BLOCK, LOAD_HANDED_TWO)]),
+ dict(name='two-layers-inner-empty-set-passes', expect='flagged(authenticity/empty-set-fails)',
+      edits=[(V, VA_FN, TWO_FN + VA_HANDED.replace('if len(trustCerts) < 1 {', 'if trustCerts == nil {')), (V, LOAD_BLOCK, LOAD_HANDED_TWO)]),
+ dict(name='upfront-literal-in-verify-unexpected-error-not-stored', expect='flagged(authenticity/verify-error-fails)',
+      edits=[(V, VA_FN, VA_UPFRONT_LIT.replace('\t\tdefault:\n\t\t\tresult.Error = notation.ErrorVerificationInconclusive{Msg: "authenticity verification failed with error : " + err.Error()}\n', '\t\tdefault:\n'))]),
+ # --- class C: the envelope content handed on / held in a local ----------------------------------------------------------------
+ dict(name='benign-envelope-content-held-in-local', expect='silent', edits=[(V, VA_FN, VA_ENV_PARAM), (V, LOAD_BLOCK, LOAD_ENV_LOCAL)]),
+ dict(name='benign-signer-info-by-value', expect='silent', edits=[(V, VA_FN, VA_SI_BY_VALUE)]),
+ dict(name='signer-info-by-value-from-elsewhere', expect='flagged(authenticity/signer-info)',
+      edits=[(V, VA_FN, VA_SI_BY_VALUE.replace('chainError(outcome.EnvelopeContent.SignerInfo, trustCerts)', 'chainError(signature.SignerInfo{CertificateChain: trustCerts}, trustCerts)'))]),
+ dict(name='signer-info-by-value-chain-replaced', expect='flagged(authenticity/signer-info)',
+      edits=[(V, VA_FN, VA_SI_BY_VALUE.replace('\t_, err := signature.VerifyAuthenticity(&signerInfo, roots)\n', '\tsignerInfo.CertificateChain = roots\n\t_, err := signature.VerifyAuthenticity(&signerInfo, roots)\n'))]),
+ dict(name='envelope-content-param-from-elsewhere', expect='flagged(authenticity/signer-info)',
+      edits=handed(VA_HANDED.replace('checkAuthenticity(trustCerts, outcome.EnvelopeContent)', 'checkAuthenticity(trustCerts, new(signature.EnvelopeContent))'))),
+ dict(name='envelope-content-local-not-the-recorded-one', expect='flagged(authenticity/signer-info)',
+      edits=[(V, VA_FN, VA_ENV_PARAM), (V, LOAD_BLOCK, LOAD_ENV_LOCAL.replace('verifyAuthenticity(trustCerts, envContent, outcome)', 'verifyAuthenticity(trustCerts, &signature.EnvelopeContent{SignerInfo: envContent.SignerInfo}, outcome)'))]),
+ dict(name='envelope-content-param-of-exported-function', expect='flagged(authenticity/signer-info)',
+      edits=handed(VA_HANDED.replace('checkAuthenticity(', 'CheckAuthenticity('))),
+]
+
 VARIANTS = [
  dict(name='type-filter-removed', file=H, expect='flagged(loader/type-filter)',
       find='\t\tif trustStoreType != truststore.Type(storeType) {\n\t\t\tcontinue\n\t\t}\n', replace='\t\t_ = storeType\n'),
@@ -615,5 +974,5 @@ VARIANTS = [
       replace='\t\tif err != nil {\n\t\t\treturn nil, fmt.Errorf("store %s: %w", name, err)\n\t\t}\n\t\tcertificates = append(certificates, certs...)'),
 
  # ---- second pass: shapes accepted by class (extra_c03.go) -------------------------------------------------------------
-] + SECOND_PASS + THIRD + FOURTH + FIFTH
+] + SECOND_PASS + THIRD + FOURTH + FIFTH + SIXTH
 
